@@ -1,7 +1,7 @@
 (* C11: the property theorems, assembled (statements are re-exported one per obligation in Props.v). *)
 From Coq Require Import ZArith List Bool Lia Arith PeanoNat Permutation Sorting.Sorted.
 Import ListNotations.
-Require Import MV.C11.Ext MV.C11.Gen MV.C11.Model MV.C11.ProofsGen MV.C11.ProofsBuild MV.C11.ProofsQuery.
+Require Import MV.C11.Ext MV.C11.Heap MV.C11.Gen MV.C11.Model MV.C11.ProofsHeap MV.C11.ProofsGen MV.C11.ProofsBuild MV.C11.ProofsQuery.
 Close Scope Z_scope.
 Open Scope nat_scope.
 
@@ -16,6 +16,24 @@ Proof.
   induction a as [|x a IH]; simpl; intros H; [constructor|].
   inversion H; subst. constructor; [|apply IH; assumption].
   intros Hx. apply H2. apply in_or_app. left. exact Hx.
+Qed.
+
+Lemma SS_app_intro {A} (R : A -> A -> Prop) a : forall b,
+  StronglySorted R a -> StronglySorted R b -> (forall x y, In x a -> In y b -> R x y) -> StronglySorted R (a ++ b).
+Proof.
+  induction a as [|z a IH]; intros b Ha Hb Hc; simpl; [exact Hb|].
+  inversion Ha as [|? ? Hs Hf]; subst. constructor.
+  - apply IH; auto. intros x y Hx Hy. apply Hc; simpl; auto.
+  - apply Forall_forall. intros y Hy. apply in_app_or in Hy. destruct Hy as [Hy|Hy].
+    + rewrite Forall_forall in Hf. apply Hf. exact Hy.
+    + apply Hc; simpl; auto.
+Qed.
+
+Lemma SS_rev {A} (R : A -> A -> Prop) l : StronglySorted (fun a b => R b a) l -> StronglySorted R (rev l).
+Proof.
+  induction 1 as [|x l Hs IH Hf]; simpl; [constructor|].
+  apply SS_app_intro; [exact IH|repeat constructor|].
+  intros a b Ha [Hb|[]]. subst b. rewrite Forall_forall in Hf. apply Hf. apply in_rev. exact Ha.
 Qed.
 
 Section Final.
@@ -66,15 +84,17 @@ Section Final.
   Proof. intros H. unfold boxdist2. apply boxdist2_lower. exact H. Qed.
 
   (* ---------------------------------------------------------------- k nearest *)
-  Lemma sorted_map q f : StronglySorted cle2 f -> dok P q f ->
-    StronglySorted (fun a b => (sqdist P q a <= sqdist P q b)%Z) (map snd f).
+  (* the heap emptied by increasing priority, reversed: indices by non-decreasing distance *)
+  Lemma sorted_out q L : StronglySorted (fun a b : item => (fst a <= fst b)%Z) L -> dok P q L ->
+    StronglySorted (fun a b => (sqdist P q a <= sqdist P q b)%Z) (rev (map payload L)).
   Proof.
-    intros Hs Hd. induction Hs as [|e f Hs IH Hf]; simpl; [constructor|].
+    intros Hs Hd. apply SS_rev. induction Hs as [|e L Hs IH Hf]; simpl; [constructor|].
     constructor.
     - apply IH. intros x Hx. apply Hd. right. exact Hx.
     - apply Forall_forall. intros j Hj. apply in_map_iff in Hj. destruct Hj as (x & Hx & Hxin).
-      rewrite Forall_forall in Hf. specialize (Hf x Hxin). unfold cle2 in Hf.
-      rewrite (Hd e (or_introl eq_refl)) in Hf. rewrite (Hd x (or_intror Hxin)) in Hf. subst j. exact Hf.
+      rewrite Forall_forall in Hf. specialize (Hf x Hxin). simpl in Hf.
+      pose proof (Hd e (or_introl eq_refl)) as He. pose proof (Hd x (or_intror Hxin)) as Hxd.
+      unfold key, d2 in He, Hxd. unfold sqdist. subst j. lia.
   Qed.
 
   Theorem knn_exact nodes q k : build P dim mls oracle = Ok nodes ->
@@ -94,23 +114,28 @@ Section Final.
     assert (HI : Inv P q k f (seq 0 (length P))).
     { eapply Inv_perm; [exact Pm|]. apply (Inv_visit P q k t W [] [] (Inv_nil P q k)). }
     clearbody f. destruct HI as (Hs & Hd & Hl & rest & Hp & Hr & Hbd).
-    exists (map snd f). split; [reflexivity|].
-    assert (Hnd : NoDup (map snd f ++ rest)) by (eapply Permutation_NoDup; [exact Hp|apply seq_NoDup]).
+    destruct (popall_spec (length f) f Hs eq_refl) as [HpL HsL].
+    set (L := popall (length f) f) in *. clearbody L.
+    assert (Hres : Permutation (rev (map payload L)) (map payload f)).
+    { eapply Permutation_trans; [apply Permutation_sym; apply Permutation_rev|]. apply Permutation_map. exact HpL. }
+    exists (rev (map payload L)). split; [reflexivity|].
+    assert (Hnd : NoDup (map payload f ++ rest)) by (eapply Permutation_NoDup; [exact Hp|apply seq_NoDup]).
     assert (Hlen : length P = length f + length rest).
     { apply Permutation_length in Hp. rewrite seq_length, app_length, map_length in Hp. exact Hp. }
     split; [|split; [|split; [|split]]].
-    - rewrite map_length. unfold cand in *. destruct rest as [|r0 rest]; simpl in Hlen; [clear - Hl Hlen; lia|].
+    - rewrite (Permutation_length Hres), map_length. unfold item in *. destruct rest as [|r0 rest]; simpl in Hlen; [clear - Hl Hlen; lia|].
       assert (Hfk : length f = k) by (apply Hr; congruence). clear - Hfk Hlen. lia.
-    - apply NoDup_app_l in Hnd. exact Hnd.
-    - intros i Hi. assert (Hin : In i (seq 0 (length P))).
+    - eapply Permutation_NoDup; [apply Permutation_sym; exact Hres|]. apply NoDup_app_l in Hnd. exact Hnd.
+    - intros i Hi. apply (Permutation_in _ Hres) in Hi. assert (Hin : In i (seq 0 (length P))).
       { apply (Permutation_in _ (Permutation_sym Hp)). apply in_or_app. left. exact Hi. }
       apply in_seq in Hin. lia.
-    - apply (sorted_map q f Hs Hd).
-    - intros i j Hi Hj Hnj.
-      assert (Hin : In j (map snd f ++ rest)) by (apply (Permutation_in _ Hp); apply in_seq; lia).
+    - apply sorted_out; [exact HsL|]. intros e He. apply Hd. apply (Permutation_in _ HpL). exact He.
+    - intros i j Hi Hj Hnj. apply (Permutation_in _ Hres) in Hi.
+      assert (Hnj' : ~ In j (map payload f)) by (intros Hc; apply Hnj; apply (Permutation_in _ (Permutation_sym Hres)); exact Hc).
+      assert (Hin : In j (map payload f ++ rest)) by (apply (Permutation_in _ Hp); apply in_seq; lia).
       apply in_app_or in Hin. destruct Hin as [Hin|Hin]; [contradiction|].
       apply in_map_iff in Hi. destruct Hi as (e & He & Hein). subst i.
-      specialize (Hbd j e Hin Hein). rewrite (Hd e Hein) in Hbd. exact Hbd.
+      specialize (Hbd j e Hin Hein). pose proof (Hd e Hein) as Hde. unfold sqdist. unfold d2 in *. lia.
   Qed.
 
   (* ---------------------------------------------------------------- radius *)
